@@ -66,6 +66,14 @@ class RecorderRoles(object):
                 is_get = isinstance(v, ast.Call) and isinstance(v.func, ast.Attribute) and v.func.attr == 'get_recording'
                 if is_get or (isinstance(v, ast.Name) and v.id in got):
                     pf.append(_self_attr(n.targets[0]))
+        # the public property in_playback_mode names the field when it exists (robust against further fields set from the fetch)
+        ipm = c.lookup('in_playback_mode')
+        if ipm is not None:
+            named = sorted({_self_attr(x) for n in ast.walk(ipm.node) if isinstance(n, ast.Return) and n.value is not None
+                            for x in ast.walk(n.value) if _self_attr(x)})
+            if len(named) == 1 and any(isinstance(n, ast.Assign) and any(_self_attr(t) == named[0] for t in n.targets)
+                                       for n in ast.walk(self.play.node)):
+                pf = named
         self.playback = self._one('playback-recording-field', pf)
         # fields initialised in __init__
         self.init_values = {}
@@ -77,9 +85,11 @@ class RecorderRoles(object):
             v.func.id == 'Counter'])
         self.thread_local = self._one('thread-local-field', [
             f for f, v in self.init_values.items() if isinstance(v, ast.Call) and norm(v.func) in ('threading.local', 'local')])
-        self.random = self._one('seeded-generator-field', [
-            f for f, v in self.init_values.items() if isinstance(v, ast.Call) and isinstance(v.func, ast.Name) and
-            v.func.id == 'Random'])
+        rnd = sorted(f for f, v in self.init_values.items() if isinstance(v, ast.Call) and isinstance(v.func, ast.Name) and
+                     v.func.id == 'Random')
+        if len(rnd) > 1:
+            raise AnalysisError('anchor-lost role=seeded-generator-field (candidates: %s)' % rnd)
+        self.random = rnd[0] if rnd else None       # None: no generator built in the constructor (C17.b reports the draw's source)
         # outputs field: list field appended with Output(...)
         outs = []
         for m in c.methods.values():
@@ -207,7 +217,7 @@ class RecorderRoles(object):
         self.sampler = None
         for m in c.methods.values():
             if any(isinstance(n, ast.Call) and isinstance(n.func, ast.Attribute) and n.func.attr == 'random' and
-                   _self_attr(n.func.value) == self.random for n in ast.walk(m.node)):
+                   _self_attr(n.func.value) and (self.random is None or _self_attr(n.func.value) == self.random) for n in ast.walk(m.node)):
                 self.sampler = m
         if self.sampler is None:
             raise AnalysisError('anchor-lost role=sampling-decision')
